@@ -78,6 +78,7 @@ func init() {
 // end the writer goroutine at the same point with runtime.Goexit (only deferred in-memory lock
 // releases and file closes still run; starting a process costs ~0.5 s here).
 var crashCount, procEvery = 0, 8
+var roCases, roAll, roEvery = 0, false, 3
 
 func runChild(env *bio.Env, op childOp) (int, error) {
 	crashCount++
@@ -145,6 +146,7 @@ type c22Input struct {
 	K        int          `json:"k"`
 	P1       string       `json:"p1,omitempty"` // start | blk
 	P2       string       `json:"p2,omitempty"` // same | done | blk (writer still inside the write)
+	RO       bool         `json:"ro,omitempty"` // the lock-free reader uses a read-only registry
 	Tag      string       `json:"tag"`
 }
 
@@ -337,6 +339,9 @@ func c22Case(res *hx.Result, in c22Input) error {
 		} else if notOldNew(crashed.Block) {
 			res.Count("crashed.mixture_passes_checksum") // crc_detects would be false for this pair
 		}
+		if err := readOnlyLookup(res, in, env, crashed, oldContent, refNew, fmt.Sprintf("crash at %s %d", in.Point, in.K)); err != nil {
+			return err
+		}
 		got, class, gerr := env.Get(ctx, id)
 		after, err := env.ReadState(blockOff)
 		if err != nil {
@@ -373,6 +378,9 @@ func c22Case(res *hx.Result, in c22Input) error {
 		if err != nil {
 			return err
 		}
+		if err := readOnlyLookup(res, in, env, crashed, oldContent, refNew, fmt.Sprintf("torn restore k=%d", in.K)); err != nil {
+			return err
+		}
 		_, class, gerr := env.Get(ctx, id)
 		after, _ := env.ReadState(blockOff)
 		if class == "err" || class == "panic" || string(after.Block) != string(oldContent) {
@@ -383,8 +391,48 @@ func c22Case(res *hx.Result, in c22Input) error {
 		}), in)
 
 	case "conc", "crashreader", "undone":
-		res.Seen(fmt.Sprintf("%s|%x|%s|%s|%d", in.Kind, init.Block, in.P1, in.P2, in.K), true)
+		res.Seen(fmt.Sprintf("%s|%x|%s|%s|%d|%v", in.Kind, init.Block, in.P1, in.P2, in.K, in.RO), true)
 		return concurrent(res, in, env, init, oldContent, refNew)
+	}
+	return nil
+}
+
+// readOnlyLookup: a lookup through a READ-ONLY registry (what non-writing transactions use) on the
+// state a crash left: it must return the old or the new record (the restored image when the block
+// is torn, never the torn bytes), must not fail, and cannot change the block.
+func readOnlyLookup(res *hx.Result, in c22Input, env *bio.Env, crashed bio.State, oldContent, refNew []byte, where string) error {
+	id := in.Upd.LogicalID
+	ideal := idealOf(id)
+	blockOff := int64(in.BlockIdx) * bio.B
+	got, class, gerr := env.GetMode(context.Background(), id, false)
+	st, err := env.ReadState(blockOff)
+	if err != nil {
+		return err
+	}
+	res.Count("get_readonly." + class)
+	if !bio.Valid(crashed.Block) {
+		res.Count("get_readonly.on_torn_block")
+	}
+	oldH, oldOK := bio.Lookup(oldContent, id, ideal)
+	newH, newOK := bio.Lookup(refNew, id, ideal)
+	isOld := (class == "found") == oldOK && (!oldOK || got == oldH)
+	isNew := (class == "found") == newOK && (!newOK || got == newH)
+	switch {
+	case class == "err" || class == "panic":
+		res.Fail("post-crash-readonly-read-error", fmt.Sprintf("%s: read-only lookup after %s failed: %v", in.Tag, where, gerr), in)
+	case !isOld && !isNew:
+		res.Fail("post-crash-readonly-read-not-old-or-new", fmt.Sprintf("%s: read-only lookup after %s returned a record that is neither the old nor the new one (version %d; old %d, new %d): the torn block was parsed instead of the restored image",
+			in.Tag, where, got.Version, oldH.Version, newH.Version), in)
+	case string(st.Block) != string(crashed.Block):
+		res.Fail("readonly-reader-changed-block", fmt.Sprintf("%s: read-only lookup after %s changed the block", in.Tag, where), in)
+	}
+	// the oracle above runs on every crash; the model comparison on every 3rd one in the quick
+	// tier (and on every corpus case) to keep the coqc time down
+	roCases++
+	if roAll || roCases%roEvery == 1 || in.Tag == "block_write_torn_inside_record" {
+		res.AddCase(bio.PairTerm(crashed, st, func(a, b string) string {
+			return fmt.Sprintf("C22ReadRO %s %s %d %s %s", a, hx.CoqBytes(id[:]), ideal, obsTerm(class, got), b)
+		}), in)
 	}
 	return nil
 }
@@ -451,7 +499,7 @@ func concurrent(res *hx.Result, in c22Input, env *bio.Env, init bio.State, oldCo
 	wch := make(chan string, 1)
 	startReader := func() {
 		go func() {
-			h, c, e := env.Get(bio.WithRole(ctx, "reader"), id)
+			h, c, e := env.GetMode(bio.WithRole(ctx, "reader"), id, !in.RO)
 			rch <- rres{h, c, e}
 		}()
 	}
@@ -522,7 +570,11 @@ func concurrent(res *hx.Result, in c22Input, env *bio.Env, init bio.State, oldCo
 		if in.P2 != "done" {
 			p2T = fmt.Sprintf("(QBlk %d)", in.K)
 		}
-		res.Count("conc." + in.P1 + "." + in.P2 + "." + rr.class)
+		mode := "rw"
+		if in.RO {
+			mode = "ro"
+		}
+		res.Count("conc." + mode + "." + in.P1 + "." + in.P2 + "." + rr.class)
 		oldH, oldOK := bio.Lookup(oldContent, id, ideal)
 		newH, newOK := bio.Lookup(refNew, id, ideal)
 		isOld := (rr.class == "found") == oldOK && (!oldOK || rr.h == oldH)
@@ -530,6 +582,9 @@ func concurrent(res *hx.Result, in c22Input, env *bio.Env, init bio.State, oldCo
 		if rr.class == "err" || rr.class == "panic" {
 			res.Count("conc.reader_error")
 			res.Fail("concurrent-read-error", fmt.Sprintf("%s: lock-free lookup next to a running update failed: %v", in.Tag, rr.err), in)
+		} else if !isOld && !isNew && !(in.P1 == "blk" && in.P2 == "done") {
+			res.Fail("concurrent-read-neither-old-nor-new", fmt.Sprintf("%s: lock-free lookup (read-only=%v) read the block %d bytes into the writer's block write while the backup was still there and returned a record that is neither the old nor the new one (version %d; old %d, new %d)",
+				in.Tag, in.RO, in.K, rr.h.Version, oldH.Version, newH.Version), in)
 		} else if !isOld && !isNew {
 			res.Fail(sigTornServed, fmt.Sprintf("%s: lock-free lookup read the block %d bytes into the writer's block write and looked for the backup after the writer removed it: it returned a record that is neither the old nor the new one (version %d; old %d, new %d)",
 				in.Tag, in.K, rr.h.Version, oldH.Version, newH.Version), in)
@@ -639,13 +694,13 @@ func runC22(cfg *hx.RunCfg) (*hx.Result, error) {
 	res.Imports = []string{"Lib.Bytes", "BlockIO", "BlockIOCorr", "Corr.C22"}
 	res.CaseType = "c22case"
 	res.Checker = "c22_check"
-	res.Rule = "a registry block populated through Add; an Update of a stored or new record runs in a child process that dies k bytes into the block write (k = 0, 1, every multiple of 62 +-1, around the CRC trailer, 4096; thorough: all 4097), k bytes into the restore write, with k bytes of the backup file written (planted state), or completes; initial states: intact, intact + stale backup (junk / valid older), torn by an earlier crashed update. Then lock-free lookups gated against a running / dying writer. distinct = distinct (initial block, backup, crash point, k, record); non-trivial = the update did not complete"
+	res.Rule = "a registry block populated through Add; an Update of a stored or new record runs in a child process that dies k bytes into the block write (k = 0, 1, every multiple of 62 +-1, around the CRC trailer, 4096; thorough: all 4097), k bytes into the restore write, with k bytes of the backup file written (planted state), or completes; initial states: intact, intact + stale backup (junk / valid older), torn by an earlier crashed update. After every crash first a lookup through a READ-ONLY registry (readWrite=false), then one through a read-write registry. Then lock-free lookups (read-write and read-only) gated against a running / dying writer. distinct = distinct (initial block, backup, crash point, k, record); non-trivial = the update did not complete"
 	bio.Install(&bio.Sim{})
 	if cfg.Tier == "thorough" {
-		procEvery = 50
+		procEvery, roEvery = 50, 2 // thorough: model comparison of the read-only lookup on every 2nd crash
 	}
 	if cfg.Replay != "" {
-		procEvery = 1
+		procEvery, roAll = 1, true
 		raw, err := os.ReadFile(cfg.Replay)
 		if err != nil {
 			return nil, err
@@ -705,6 +760,28 @@ func runC22(cfg *hx.RunCfg) (*hx.Result, error) {
 			in.Kind, in.P1, in.P2, in.K, in.Tag = "conc", "blk", "done", bio.B, "conc_all_written"
 		}),
 		with(func(in *c22Input) { in.Kind, in.Point, in.Tag = "crash", "done", "update_completes" }),
+		// read-only readers (readWrite=false), torn prefix cutting through the updated record
+		with(func(in *c22Input) {
+			in.Kind, in.P1, in.P2, in.K, in.RO, in.Tag = "conc", "blk", "blk", 40*bio.S+55, true, "readonly_in_flight_torn_backup_present"
+		}),
+		with(func(in *c22Input) {
+			in.Kind, in.P1, in.P2, in.K, in.RO, in.Tag = "conc", "blk", "blk", 40*bio.S+20, true, "readonly_in_flight_torn_backup_present"
+		}),
+		with(func(in *c22Input) {
+			in.Kind, in.P1, in.P2, in.K, in.RO, in.Tag = "conc", "start", "blk", 40*bio.S+55, true, "readonly_intact_read"
+		}),
+		with(func(in *c22Input) {
+			in.Kind, in.P1, in.P2, in.K, in.RO, in.Tag = "conc", "blk", "done", 40*bio.S+55, true, "readonly_torn_read_backup_gone"
+		}),
+		with(func(in *c22Input) {
+			in.Kind, in.P1, in.K, in.RO, in.Tag = "crashreader", "start", 40*bio.S+55, true, "readonly_reader_removes_live_backup"
+		}),
+		with(func(in *c22Input) {
+			in.Kind, in.Point, in.K, in.Tag = "crash", "block", 40*bio.S+20, "block_write_torn_inside_record"
+		}),
+		with(func(in *c22Input) {
+			in.Kind, in.Point, in.K, in.Tag = "crash", "block", 40*bio.S+55, "block_write_torn_inside_record"
+		}),
 	}
 	for _, in := range fixed {
 		if err := run(in); err != nil {
@@ -789,7 +866,7 @@ func runC22(cfg *hx.RunCfg) (*hx.Result, error) {
 		}
 		if r.Chance(20) {
 			in.Kind, in.P1, in.P2 = "conc", hx.Pick(r, []string{"start", "blk"}), hx.Pick(r, []string{"blk", "done"})
-			in.Stale = "none"
+			in.Stale, in.RO = "none", r.Bool()
 		}
 		if err := run(in); err != nil {
 			return nil, err
